@@ -262,7 +262,7 @@ class TextFileStorage(Storage[str]):
         """
 
         with self._storage_lock:
-            for i in range(len(self)):
+            for i in range(len(self._index)):  # the highest identifier may be greater than the number of stored data
                 try:
                     yield self[i]
                 except IndexError:
